@@ -25,6 +25,7 @@ from .c05 import close
 
 AGGS = ["sum", "count", "size", "min", "max", "mean"]
 VALS = [None, Fraction(1), Fraction(2), Fraction(-3), Fraction(1, 2), Fraction(5, 4), Fraction(7)]
+TICKS = [None, 2**55 + 1, 2**55 + 86_400_000_000_003, 2**54 + 7, -(2**55) - 5, 10, 20]
 
 
 def agg_exact(agg, xs):
@@ -57,20 +58,31 @@ def gen_keys(rng, n, nkeys, null_ok=True):
     return cols, kinds
 
 
-def expected_margins(keycols, vals, sel, agg, levels):
+def expected_margins(keycols, vals, sel, agg, levels, exact_mean=False):
+    if exact_mean and agg == "mean":
+        def agg_fn(xs):
+            nn = [x for x in xs if x is not None]
+            return Fraction(sum(nn), len(nn)) if nn else None
+    else:
+        def agg_fn(xs):
+            return agg_exact(agg, xs)
+    return _expected_margins(keycols, vals, sel, agg_fn, levels)
+
+
+def _expected_margins(keycols, vals, sel, agg_fn, levels):
     n = len(vals)
     nk = len(keycols)
     rows = [i for i in sel if all(col[i] is not None for col in keycols)]
     out = {}
     combos = {tuple(col[i] for col in keycols) for i in rows}
     for t in combos:
-        out[t] = agg_exact(agg, [vals[i] for i in rows if tuple(col[i] for col in keycols) == t])
+        out[t] = agg_fn([vals[i] for i in rows if tuple(col[i] for col in keycols) == t])
     for r in range(1, len(levels) + 1):
         for S in itertools.combinations(levels, r):
             seen = {tuple("All" if j in S else col[i] for j, col in enumerate(keycols)) for i in rows}
             for t in seen:
                 match = [i for i in rows if all(t[j] == "All" or keycols[j][i] == t[j] for j in range(nk))]
-                out[t] = agg_exact(agg, [vals[i] for i in match])
+                out[t] = agg_fn([vals[i] for i in match])
     return out
 
 
@@ -79,8 +91,16 @@ def margins_stream(res, rng, tier, GroupBy):
         n = rng.randint(1, 10)
         nkeys = rng.choice([1, 2, 2, 3])
         keycols, kinds = gen_keys(rng, n, nkeys)
-        vals = [rng.choice(VALS) for _ in range(n)]
-        agg = rng.choice(AGGS)
+        # value dtype: mostly floats; a third of the cases tick counts (datetime64 / timedelta64) above 2^53, whose sums
+        # stay inside 64 bits: margins of temporal values must be formed in whole numbers, like the ordinary rows
+        vdt = rng.choice(["f8", "f8", "M8", "m8"])
+        if vdt == "f8":
+            vals = [rng.choice(VALS) for _ in range(n)]
+            agg = rng.choice(AGGS)
+        else:
+            vals = [rng.choice(TICKS) for _ in range(n)]
+            agg = rng.choice(["count", "size", "min", "max", "mean", "mean"] + (["sum"] if vdt == "m8" else []))
+        frame = vdt != "f8" and agg != "size" and rng.random() < 0.4      # a frame mixing a float and a temporal column
         warm_ = rng.choice([None, None, None] + api.WARM_OPS)
         mask = None if rng.random() < 0.6 else ("b", [rng.random() < 0.7 for _ in range(n)])
         if nkeys == 1 or rng.random() < 0.5:
@@ -89,13 +109,15 @@ def margins_stream(res, rng, tier, GroupBy):
             k = rng.randint(1, nkeys)
             levels = sorted(rng.sample(range(nkeys), k))
             margins = levels
-        case = dict(stream="margins", keys=keycols, key_kinds=kinds, values=[None if v is None else str(v) for v in vals], agg=agg, mask=mask, margins=margins)
+        fvals = [rng.choice(VALS) for _ in range(n)] if frame else None
+        case = dict(stream="margins", keys=keycols, key_kinds=kinds, values=[None if v is None else str(v) for v in vals], agg=agg, mask=mask, margins=margins, vdt=vdt,
+                    frame_float_column=None if fvals is None else [None if v is None else str(v) for v in fvals])
         res.note_case(repr(case), nkeys >= 2 or mask is not None)
-        res.count("stream", "margins"); res.count("agg", agg); res.count("nkeys", nkeys); res.count("levels", str(margins))
+        res.count("stream", "margins"); res.count("agg", agg); res.count("nkeys", nkeys); res.count("levels", str(margins)); res.count("value_dtype", vdt + ("+frame" if frame else ""))
         if t % 199 == 0:
             res.sample(case)
         sel = selected_positions(n, mask)
-        want = expected_margins(keycols, vals, sel, agg, levels)
+        want = expected_margins(keycols, vals, sel, agg, levels, exact_mean=(vdt != "f8"))
         if not want:
             continue
         try:
@@ -103,13 +125,24 @@ def margins_stream(res, rng, tier, GroupBy):
             gb = GroupBy(keys if nkeys > 1 else keys[0])
             api.warm(gb, warm_, n)          # the grouping may have been used before
             m = None if mask is None else np.array(mask[1], dtype=bool)
-            v = api.make_values(vals, "f8")
+            v = api.make_values(vals, vdt)
+            if frame:
+                v = pd.DataFrame({"f": api.make_values(fvals, "f8"), "t": v})
             out = gb.size(mask=m, margins=margins) if agg == "size" else getattr(gb, agg)(v, mask=m, margins=margins)
         except Exception as e:  # noqa: BLE001
-            res.violations.append(dict(sig=dict(stream="margins", what="raised", agg=agg, nkeys=nkeys, exc=type(e).__name__), case=case, observed=repr(e)[:200], expected=str(want)[:200], what=f"{agg}(margins={margins}) raised"))
+            res.violations.append(dict(sig=dict(stream="margins", what="raised", agg=agg, nkeys=nkeys, vdt=vdt, exc=type(e).__name__), case=case, observed=repr(e)[:200], expected=str(want)[:200], what=f"{agg}(margins={margins}) raised"))
             continue
+        sig = dict(stream="margins", agg=agg, nkeys=nkeys, margins="all" if margins is True else "subset", vdt=vdt + ("+frame" if frame else ""))
+        if frame:
+            # the float column next to the temporal one must be what it is on its own
+            fwant = expected_margins(keycols, fvals, sel, agg, levels)
+            fgot = dict(zip(api.index_to_ranks(out.index, kinds), api.canon_series(out["f"])))
+            fbad = {k: (fgot.get(k), fwant[k]) for k in fwant if not close(fgot.get(k), None if fwant[k] is None else Fraction(fwant[k]), agg == "mean")}
+            if set(fgot) != set(fwant) or fbad:
+                res.violations.append(dict(sig={**sig, "what": "float-column-of-mixed-frame"}, case=case, observed=str({str(k): str(v[0]) for k, v in fbad.items()} or sorted(fgot, key=str))[:300],
+                                           expected=str({str(k): str(v[1]) for k, v in fbad.items()} or sorted(fwant, key=str))[:300], what=f"{agg} with margins: the float column of a mixed frame differs from the aggregate of what its rows summarise"))
+            out = out["t"]
         got = dict(zip(api.index_to_ranks(out.index, kinds), api.canon_series(out)))
-        sig = dict(stream="margins", agg=agg, nkeys=nkeys, margins="all" if margins is True else "subset")
         if len(got) != len(out):
             res.violations.append(dict(sig={**sig, "what": "duplicate-rows"}, case=case, observed=str(out.index.tolist()), expected="distinct rows", what="a row appears twice"))
         extra = sorted(set(got) - set(want), key=str)
@@ -118,7 +151,11 @@ def margins_stream(res, rng, tier, GroupBy):
             res.violations.append(dict(sig={**sig, "what": "rows"}, case=case, observed=f"extra {extra} missing {missing}", expected=str(sorted(want, key=str)),
                                        what="the rows reported are not the ordinary rows plus the requested 'All' combinations"))
             continue
-        bad = {k: (got[k], want[k]) for k in want if not close(got[k], None if want[k] is None else Fraction(want[k]), agg == "mean")}
+        if vdt == "f8":
+            bad = {k: (got[k], want[k]) for k in want if not close(got[k], None if want[k] is None else Fraction(want[k]), agg == "mean")}
+        else:
+            # tick counts: exact, a mean to within one tick of the exact rational mean
+            bad = {k: (got[k], want[k]) for k in want if (got[k] is None) != (want[k] is None) or (want[k] is not None and abs(Fraction(int(got[k])) - Fraction(want[k])) >= (1 if agg == "mean" else Fraction(1, 2)))}
         if bad:
             what = "all-row" if any("All" in k for k in bad) else "ordinary-row"
             res.violations.append(dict(sig={**sig, "what": what}, case=case, observed=str({str(k): str(v[0]) for k, v in bad.items()}), expected=str({str(k): str(v[1]) for k, v in bad.items()}),
@@ -194,6 +231,68 @@ def crosstab_stream(res, rng, tier):
                                        expected=str({str(k): str(v[1]) for k, v in bad.items()})[:400], what="crosstab cells / margins differ from the aggregation of the rows they stand for"))
 
 
+def add_row_margin_stream(res, rng, tier):
+    """core.add_row_margin itself against the extracted model (Model/Margins.add_row_margin, agg = integer addition): a Series
+    with a 1-4 level MultiIndex of sparse label combinations, every subset of requested levels; compared as mappings
+    key -> value ('All' rows included), duplicates of the model (one subset reached through several levels) must agree."""
+    from groupby_lib.groupby.core import add_row_margin
+    from ..common import Driver, sx
+    drv = Driver()
+    cases = []
+    for t in range(250 if tier == "quick" else 2500):
+        n = rng.choice([1, 2, 2, 3, 3, 4])
+        nrows = rng.randint(1, 7)
+        keys = set()
+        while len(keys) < nrows:
+            keys.add(tuple(rng.randrange(rng.choice([2, 3])) for _ in range(n)))
+            if len(keys) >= 2 ** n and nrows > len(keys):
+                break
+        keys = sorted(keys)
+        vals = [rng.choice([1, 2, 3, 5, 7, 11, -4, 2**53 + 1]) for _ in keys]
+        if n == 1 or rng.random() < 0.4:
+            levels = None
+        else:
+            levels = sorted(rng.sample(range(n), rng.randint(1, n)))
+        cases.append((n, keys, vals, levels))
+    reqs = [sx(["add_row_margin", str(n), [str(l) for l in (levels if levels is not None else range(n))], [[[str(x) for x in k], str(v)] for k, v in zip(keys, vals)]])
+            for n, keys, vals, levels in cases]
+    resp = drv.ask(reqs)
+    for (n, keys, vals, levels), r in zip(cases, resp):
+        case = dict(stream="add_row_margin", nlevels=n, keys=[list(k) for k in keys], values=vals, levels=levels)
+        res.note_case(repr(case), True)
+        res.count("stream", "add_row_margin"); res.count("arm_levels", n); res.count("arm_subset", "all" if levels is None else len(levels))
+        model = {}
+        inconsistent = False
+        for k, v in r:
+            kk = tuple("All" if x == "A" else int(x) for x in k)
+            if kk in model and model[kk] != int(v):
+                inconsistent = True
+            model[kk] = int(v)
+        if inconsistent:
+            res.model_mismatches.append(dict(case=case, impl="-", model="the model produced one key twice with different values: " + str(r)[:300]))
+            continue
+        try:
+            if n == 1:
+                ser = pd.Series(vals, index=pd.Index([k[0] for k in keys], name="k0"), dtype="int64")
+                out = add_row_margin(ser, "sum")
+                got = {(("All",) if x == "All" else (int(x),)): int(v) for x, v in out.items()}
+            else:
+                ser = pd.Series(vals, index=pd.MultiIndex.from_tuples(keys, names=[f"k{i}" for i in range(n)]), dtype="int64")
+                out = add_row_margin(ser, "sum", levels=levels)
+                got = {tuple("All" if x == "All" else int(x) for x in k): int(v) for k, v in out.items()}
+                if len(got) != len(out):
+                    res.violations.append(dict(sig=dict(stream="add_row_margin", what="duplicate-rows"), case=case, observed=str(out.index.tolist())[:300], expected="distinct rows", what="add_row_margin lists a row twice"))
+                    continue
+        except Exception as e:  # noqa: BLE001
+            res.violations.append(dict(sig=dict(stream="add_row_margin", what="raised", exc=type(e).__name__), case=case, observed=repr(e)[:200], expected=str(model)[:200], what="add_row_margin raised"))
+            continue
+        if got != model:
+            # the model is proved to carry the aggregate of the rows each key stands for: a difference is a wrong margin
+            diff = {str(k): (got.get(k), model.get(k)) for k in set(got) | set(model) if got.get(k) != model.get(k)}
+            res.violations.append(dict(sig=dict(stream="add_row_margin", what="differs-from-model", nlevels=n, subset=levels is not None), case=case, observed=str({k: v[0] for k, v in diff.items()})[:300],
+                                       expected=str({k: v[1] for k, v in diff.items()})[:300], what="add_row_margin differs from the proved model (key -> aggregate of the rows the key stands for)"))
+
+
 def run(res, tier="quick", seed=0, widen=False):
     from groupby_lib import GroupBy
     rng = random.Random(seed * 41 + 14 + (1 if widen else 0))
@@ -203,6 +302,7 @@ def run(res, tier="quick", seed=0, widen=False):
                 "aggregate, absent combinations null; non-trivial = >= 2 keys or a mask (margins), every crosstab; distinct = canonical case")
     margins_stream(res, rng, tier, GroupBy)
     crosstab_stream(res, rng, tier)
+    add_row_margin_stream(res, rng, tier)
 
 
 def replay(payload):
